@@ -420,6 +420,10 @@ func c05Scenarios(tier string) []engine.Scenario {
 			a = append(a, flows.A("recover-start(B1,u2)", func(s *world.Stack, _ *world.World) world.Req { return flows.RecoverStart(s, b, U2) }, U2))
 			a = append(a, recoverEndActs(w, b, []string{U1, U2}, P3)...)
 			a = append(a, flows.AdminStartConfirm(U2), flows.AdminStartConfirm(U1))
+			if r := w.DB.Users[U2]; !r.Confirmed && r.ConfirmSelector != "" {
+				// the account is confirmed out of band (support desk) while its link is outstanding: the link is still spent by its use
+				a = append(a, flows.Env("admin-confirm(u2)", func(s *world.Stack, w *world.World) { r := w.DB.Users[U2]; r.Confirmed = true; w.DB.Users[U2] = r }))
+			}
 			a = append(a, confirmActs(w, b, []string{U1, U2, U3})...)
 			if _, ok := w.DB.Users[U3]; !ok {
 				a = append(a, flows.A("register(B1,u3)", func(s *world.Stack, _ *world.World) world.Req {
